@@ -142,15 +142,37 @@ def physical_step_budget(case):
 # ---------------------------------------------------------------------------------------------------------------
 # child side
 
+EVENTS_PER_STEP_BUDGET = 200_000      # line events in library frames between two integration steps (normal: < 500)
+
+
 class _Steps:
+    """deterministic liveness budgets, no clock: integration steps per call (atmosphere seam) and library line events
+    between two consecutive steps (settrace) - the second catches a loop that spins INSIDE one step"""
+
     def __init__(self):
         self.n = 0
         self.budget = None
+        self.since = 0
+        self.libdir = lib.LIBDIR
 
     def hook(self, altitude):
         self.n += 1
+        self.since = 0
         if self.budget is not None and self.n > self.budget:
-            raise BudgetExceeded()
+            raise BudgetExceeded("steps")
+
+    def gtrace(self, frame, event, arg):
+        if frame.f_code.co_filename.startswith(self.libdir):
+            return self.ltrace
+        return None
+
+    def ltrace(self, frame, event, arg):
+        if event == "line":
+            self.since += 1
+            if self.since > EVENTS_PER_STEP_BUDGET:
+                self.since = 0
+                raise BudgetExceeded("events inside one integration step")
+        return self.ltrace
 
 
 def _fire(case, limits, steps, budget):
@@ -165,19 +187,25 @@ def _fire(case, limits, steps, budget):
     calc = pb.Calculator(_config=cfg)
     req = case["req"]
     steps.n = 0
+    steps.since = 0
     steps.budget = budget
     out = {"cfg": cfg}
+    import sys
+    sys.settrace(steps.gtrace)
     try:
-        hit = calc.fire(shot, b.q(req["range"]), b.q(req["step"]), extra_data=req["extra"], time_step=req["time_step"])
+        try:
+            hit = calc.fire(shot, b.q(req["range"]), b.q(req["step"]), extra_data=req["extra"], time_step=req["time_step"])
+        finally:
+            sys.settrace(None)
         out["rows"] = drows(hit.trajectory)
         out["exc"] = None
     except pb.RangeError as e:
         d = dexc(e)
         out["rows"] = d["rows"]
         out["exc"] = {"reason": d["reason"], "last_distance": d["last_distance"]}
-    except BudgetExceeded:
+    except BudgetExceeded as e:
         out["rows"] = []
-        out["exc"] = {"budget": True}
+        out["exc"] = {"budget": True, "what": str(e)}
     except Exception as e:  # neither a result nor a range error
         out["rows"] = []
         out["exc"] = {"other": dexc(e)}
@@ -208,6 +236,9 @@ def check_abort(case, ref, out, limits):
     rows = out["rows"]
     exc = out["exc"]
     if exc and exc.get("budget"):
+        if "inside one" in (exc.get("what") or ""):
+            return [("liveness.spins_inside_one_step", f"more than {EVENTS_PER_STEP_BUDGET} library line events after integration "
+                                                       f"step {out['steps']} without reaching the next one")]
         return [("liveness.step_budget", f"no termination within {out['steps']} integration steps")]
     if exc and exc.get("other"):
         return [("outcome.other_exception", f"neither a trajectory nor a range error: {exc['other']}")]
@@ -396,6 +427,48 @@ def _sweep(case, only_limits=None):
             res["violations"].append({"sig": {"invariant": inv, "mode": label if label != "replay" else "sweep",
                                               "launch": case["kind"]},
                                       "detail": detail + f" | limits={lim}", "replay": {"case": case, "limits": lim}})
+    # ---- the same truthfulness for range errors that come out of ZEROING (trajectory computations too; their partial
+    # trajectory has a single row): stated reason violated by the last row, last_distance = that row's distance
+    if only_limits is None and len(ref["rows"]) >= 3 and not ref["exc"]:
+        pb = lib.pb
+        v0, _, _ = _vals(ref["rows"][0])
+        v1, _, _ = _vals(ref["rows"][-1])
+        if v0 - v1 > 2.0:
+            lim = {"cMinimumVelocity": (v0 + v1) / 2}
+            cfg = {"max_calc_step_size_feet": case["step"]}
+            if case.get("gravity") is not None:
+                cfg["cGravityConstant"] = case["gravity"]
+            cfg.update(case["relaxed"])
+            cfg.update(lim)
+            b = Builder(case["world"], shared=True, seam=True)
+            steps.n, steps.since, steps.budget = 0, 0, 40 * (ref["steps"] + 1000)
+            try:
+                pb.Calculator(_config=cfg).set_weapon_zero(b.shot(0), b.q(case["req"]["range"]))
+                h.append(["zero", "returned"])
+            except pb.RangeError as e:
+                res["runs"] += 1
+                d = dexc(e)
+                h.append(["zero", d["reason"], len(d["rows"])])
+                zb = []
+                if not d["rows"]:
+                    zb.append(("error.empty_partial_trajectory", "range error out of zeroing carries no rows"))
+                else:
+                    lv, ly, _ = _vals(d["rows"][-1])
+                    if d["reason"] == REASONS["v"] and not lv < lim["cMinimumVelocity"] * (1 + 1e-9):
+                        zb.append(("error.reason_not_violated", f"zeroing: reason {d['reason']!r} but last row velocity {lv}"))
+                    if d["last_distance"] is None or d["last_distance"][1] != d["rows"][-1][DIST]:
+                        zb.append(("error.last_distance", f"zeroing: last_distance {d['last_distance']} != last row distance "
+                                                          f"{d['rows'][-1][DIST]} ({len(d['rows'])} row(s))"))
+                for inv, detail in zb:
+                    res["violations"].append({"sig": {"invariant": inv, "mode": "zeroing", "launch": case["kind"]},
+                                              "detail": detail + f" | limits={lim}",
+                                              "replay": {"case": case, "limits": None, "whole_case": True}})
+            except BudgetExceeded:
+                res["violations"].append({"sig": {"invariant": "liveness.step_budget", "mode": "zeroing", "launch": case["kind"]},
+                                          "detail": "zeroing under a velocity limit did not end within its step budget",
+                                          "replay": {"case": case, "limits": None, "whole_case": True}})
+            except Exception:  # noqa: ZeroFindingError etc. are C02's business
+                h.append(["zero", "other"])
     res["digest"] = sha(h)
     return res
 
@@ -409,7 +482,7 @@ def _normalise_sig(v):
     if s.get("invariant", "").endswith("|first_step"):
         s["invariant"] = s["invariant"][:-len("|first_step")]
         s["row_inside_first_step_from_violating_muzzle"] = True
-    if s.get("mode") not in ("reference",):
+    if s.get("mode") not in ("reference", "zeroing"):
         s["mode"] = "sweep"
     v["sig"] = s
     return v
@@ -429,7 +502,7 @@ def run_case(seed, tier, idx):
 
 def replay_case(rep):
     case = rep["case"]
-    res = run_in_fork(_sweep, (case, rep.get("limits") or {}), timeout=600)
+    res = run_in_fork(_sweep, (case, None if rep.get("whole_case") else (rep.get("limits") or {})), timeout=600)
     res["violations"] = [_normalise_sig(v) for v in res["violations"]]
     return res
 
@@ -439,7 +512,7 @@ def minimise(rep):
     want = rep["violation"]["sig"]
 
     def fails(r):
-        out = _sweep(r["case"], r.get("limits") or {})
+        out = _sweep(r["case"], None if r.get("whole_case") else (r.get("limits") or {}))
         return any(_normalise_sig(v)["sig"] == want for v in out["violations"])
 
     import copy
